@@ -232,7 +232,8 @@ impl Chip127x {
     fn start_op(&mut self, kind: OpKind, from: Mode) {
         self.abort_op();
         let missing = item::ALL & !self.prog();
-        self.op_starts.push(OpStart { kind, from, missing, txn: self.transcript.len() });
+        let sync = self.regs[REG_SYNC_WORD as usize] as u16;
+        self.op_starts.push(OpStart { kind, from, missing, txn: self.transcript.len(), sync });
         if from == Mode::Sleep {
             self.alarms.push(Alarm::OpStartFromSleep(kind));
         }
